@@ -238,4 +238,17 @@ Section Ev.
     destruct (CrashFault4.logout_user_safe K K_codec K_access K_user s u s' r (G_J _ _ Hg) (G_cok _ _ Hg) E) as (l & X & HQ & _).
     exists l. split; [exact X | apply QKs_EL; exact HQ].
   Qed.
+  (* RefreshUser(user) *)
+  Lemma E_refresh_user base s u s' r : Gb hb Q1 base s -> refresh_user s u = (s', r) -> evs_ok s s'.
+  Proof.
+    intros Hg E. unfold refresh_user in E. destruct (p_usersessions s (fst u)) as [s1 lst] eqn:EU.
+    apply CrashFault.p_usersessions_spec in EU. destruct EU as ((Hh & Hca & _) & Hst & _ & ok & X & _).
+    assert (Ev1 : evs_ok s s1) by (exists [EvUserSessions (fst u) ok]; split; [exact X | repeat constructor]).
+    destruct lst as [ids|]; [|injection E as <- _; exact Ev1].
+    assert (HJ1 : CrashFault2.J K s1) by (eapply CrashFault2.J_same; [exact Hh | exact Hca | exact Hst | exact (G_J _ _ Hg)]).
+    assert (Hc1 : CrashFault4.cok s1).
+    { intros k0 o0 ob0 H H0. rewrite Hca in H. unfold hget in H0. rewrite Hh in H0. exact (G_cok _ _ Hg k0 o0 ob0 H H0). }
+    destruct (CrashFault4.each_user_session_safe K K_codec K_access K_user ids (Some u) s1 s' r HJ1 Hc1 E) as (l & X2 & HQ & _).
+    eapply evs_ok_trans; [exact Ev1|]. exists l. split; [exact X2 | apply QKs_EL; exact HQ].
+  Qed.
 End Ev.
